@@ -321,7 +321,8 @@ public:
     bool exists(const Key& k)
     {
         root_ = splay(k, root_, cmp_);
-        return !cmp_(root_->key, k) && !cmp_(k, root_->key);
+        return root_ != nullptr && !cmp_(root_->key, k) &&
+               !cmp_(k, root_->key);
     }
 
     //! return number of items in tree
